@@ -119,6 +119,7 @@ type c15Op struct {
 	title string
 	nilc  bool
 	empty bool
+	same  bool // the heading text is the fixed word "Same" (several headings share it)
 	twice bool
 }
 
@@ -214,6 +215,9 @@ func c15TocOps() []c15Op {
 	}
 	for lv := 1; lv <= 9; lv++ {
 		ops = append(ops, c15Op{name: fmt.Sprintf("AddHeadingParagraph(\"\",%d)", lv), kind: "head", level: lv, empty: true})
+	}
+	for lv := 1; lv <= 2; lv++ {
+		ops = append(ops, c15Op{name: fmt.Sprintf("AddHeadingParagraph(\"Same\",%d)", lv), kind: "head", level: lv, same: true})
 	}
 	for _, mx := range []int{1, 3, 9} {
 		ops = append(ops, c15Op{name: fmt.Sprintf("GenerateTOC(max=%d,title=T%d)", mx, mx), kind: "gen", max: mx, title: fmt.Sprintf("T%d", mx)})
@@ -768,7 +772,9 @@ func (i *c15Inst) apply(op int) (string, []rep.Violation) {
 			i.lastNT = true
 		case "head":
 			h := c15Head{Level: o.level}
-			if !o.empty {
+			if o.same {
+				h.Text = "Same"
+			} else if !o.empty {
 				h.Text = s.next(fmt.Sprintf("H%dx", o.level))
 			}
 			s.doc.AddHeadingParagraph(h.Text, o.level)
@@ -1388,7 +1394,7 @@ func c15CheckTocs(body *pkgmodel.Node, m *c15Model, stage string, add c15Add) {
 }
 
 func runC15(r *rep.Run) {
-	r.Rule = "BFS (seqx) over call histories of four alphabets — lists (AddListItem: 7 types x levels {-1,0,1,8,9}, 7 types x starts {0,1,5}, 3 bullet symbols, nil config; AddBulletList, AddNumberedList, CreateMultiLevelList of 2 items, RestartNumbering, reopen), notes (AddFootnote, AddEndnote, AddFootnoteToRun, RemoveFootnote/RemoveEndnote of own oldest/newest, missing, already removed and other-document ids, a second document, reopen), TOC (AddHeadingParagraph level 1..9 with unique or empty text, GenerateTOC/AutoGenerateTOC with max level 1, 3, 9 or nil config, UpdateTOC, UpdateTOC x2, AutoGenerateTOC x2, reopen) and a mixed one — each from an empty document and from prefixed roots (two items/two notes/six headings, saved and reopened), on a real Document in lock-step with a record of the requests. After every call the note counts are compared with adds - removes of that document; every distinct state is saved and the package is judged through the independent reader: each item paragraph -> w:numId -> w:num (level overrides honoured) -> w:abstractNum -> the w:lvl named by the paragraph's w:ilvl must exist and carry the requested w:numFmt, bullet w:lvlText and w:start; each live note occurs exactly once by text in the part the main part's relationship names, removed and foreign notes never; each table of contents (content control with gallery 'Table of Contents') has the requested title and lists exactly the non-empty headings of level <= requested, in order; x2 calls compare the canonical TOC content after one and two applications. non-trivial = a call that added an item/note/heading, (re)generated a TOC, removed or rejected a removal, or reopened"
+	r.Rule = "BFS (seqx) over call histories of four alphabets — lists (AddListItem: 7 types x levels {-1,0,1,8,9}, 7 types x starts {0,1,5}, 3 bullet symbols, nil config; AddBulletList, AddNumberedList, CreateMultiLevelList of 2 items, RestartNumbering, reopen), notes (AddFootnote, AddEndnote, AddFootnoteToRun, RemoveFootnote/RemoveEndnote of own oldest/newest, missing, already removed and other-document ids, a second document, reopen), TOC (AddHeadingParagraph level 1..9 with unique or empty text and level 1..2 with one repeated text, GenerateTOC/AutoGenerateTOC with max level 1, 3, 9 or nil config, UpdateTOC, UpdateTOC x2, AutoGenerateTOC x2, reopen) and a mixed one — each from an empty document and from prefixed roots (two items/two notes/six headings, saved and reopened), on a real Document in lock-step with a record of the requests. After every call the note counts are compared with adds - removes of that document; every distinct state is saved and the package is judged through the independent reader: each item paragraph -> w:numId -> w:num (level overrides honoured) -> w:abstractNum -> the w:lvl named by the paragraph's w:ilvl must exist and carry the requested w:numFmt, bullet w:lvlText and w:start; each live note occurs exactly once by text in the part the main part's relationship names, removed and foreign notes never; each table of contents (content control with gallery 'Table of Contents') has the requested title and lists exactly the non-empty headings of level <= requested, in order; x2 calls compare the canonical TOC content after one and two applications. non-trivial = a call that added an item/note/heading, (re)generated a TOC, removed or rejected a removal, or reopened"
 	r.Assume = []string{
 		"texts of items, notes and headings are unique per document, so that paragraphs, notes and entries are identified by text",
 		"a heading paragraph without text may or may not be listed (the statement lists headings 'with their text')",
